@@ -168,11 +168,14 @@ def control_case(P, r, stats, viol):
 
 
 def honest_case(P, r, a_controls, reverse, drop_ab, drop_ba, sizes, stats, viol):
-    setup = P.rpc({"op": "setup", "aControlling": a_controls, "relay": True})
+    # every second negotiation has a STUN server (run by the harness, answering with a mapped address of its own choosing), so that the agents
+    # also advertise server-reflexive candidates
+    setup = P.rpc({"op": "setup", "aControlling": a_controls, "relay": True, "stun": len(sizes) % 4 != 0})
     # RFC 5245 4.1.2.1 priorities
     for side in ("a", "b"):
         for c in setup[side]["candidates"]:
             stats["candidates"] += 1
+            stats["candidates_type_%d" % c["type"]] += 1
             pr = int(c["priority"])
             if (pr >> 24) != TYPE_PREF.get(c["type"]) or (pr & 0xff) != 256 - c["component"]:
                 viol.append(("candidate-priority type=%s" % c["type"], "candidate priority %d is not 2^24*typePref + 2^8*localPref + (256 - component)" % pr, {"candidate": c}))
@@ -291,7 +294,7 @@ def main(tier, replay=None):
                    "negotiation or with no honest peer at all; honest negotiations through a relay that drops chosen first transmissions (every subset of the first 4 transactions) under both role assignments and candidate orders, "
                    "then unique datagrams of 0..1400 bytes both ways; observations: the attacker's receive log, connected()/isConnected(), 'ICE pair selected' log lines, the peers' received datagrams",
            "observed": dict(stats), "samples": [{"forged": {"cls": "request", "integrity": "none", "user": "right", "use_candidate": True}, "expected": "no datagram to the attacker"}]}
-    floors = {"forged": stats["forged_packets"] >= 100, "positive_control": stats["positive_control_answered"] > 0, "honest_ok": stats["honest_ok"] > 0, "honest_with_loss": stats["honest_with_loss_ok"] > 0,
+    floors = {"server_reflexive_candidates": stats["candidates_type_2"] > 0, "forged": stats["forged_packets"] >= 100, "positive_control": stats["positive_control_answered"] > 0, "honest_ok": stats["honest_ok"] > 0, "honest_with_loss": stats["honest_with_loss_ok"] > 0,
               "under_attack": stats["honest_under_attack_ok"] > 0}
-    V.finish(cov, "exploration", ["loopback UDP, both agents and the relay in one process; loss is confined to first transmissions as the statement says", "only host candidates exist in the sandbox (no STUN/TURN servers)",
+    V.finish(cov, "exploration", ["loopback UDP, both agents and the relay in one process; loss is confined to first transmissions as the statement says", "host candidates and server-reflexive candidates from a STUN server run by the harness (no TURN server: no relayed candidates)",
                                   "a STUN error response to the attacker is recorded, not judged; a 30 s wall-clock watchdog firing twice makes a case inconclusive"], floors)
